@@ -112,6 +112,23 @@ class _Canon(ast.NodeTransformer):
             return ast.copy_location(ast.If(test=node.test.operand, body=node.orelse, orelse=node.body), node)
         return node
 
+    def visit_JoinedStr(self, node):  # noqa: N802
+        # f'..{a}..{b}' with plain fields  ->  '..{}..{}'.format(a, b): one spelling of string building for the rules that read format texts
+        self.generic_visit(node)
+        if not any(isinstance(v, ast.FormattedValue) for v in node.values):
+            return node
+        text, args = '', []
+        for v in node.values:
+            if isinstance(v, ast.Constant) and isinstance(v.value, str):
+                text += v.value.replace('{', '{{').replace('}', '}}')
+            elif isinstance(v, ast.FormattedValue) and v.conversion == -1 and v.format_spec is None:
+                text += '{}'
+                args.append(v.value)
+            else:
+                return node
+        new = ast.Call(func=ast.Attribute(value=ast.Constant(value=text), attr='format', ctx=ast.Load()), args=args, keywords=[])
+        return ast.copy_location(new, node)
+
     def visit_IfExp(self, node):  # noqa: N802
         self.generic_visit(node)
         if isinstance(node.test, ast.UnaryOp) and isinstance(node.test.op, ast.Not):
